@@ -207,6 +207,7 @@ SPEC = dict(
     driver_args=["c02"],
     ml_modules=["scan_model"],
     n={"quick": 850, "thorough": 6000},
+    escalate=2,   # quick tier on a changed source: twice the cases, thorough-tier generator (default 4 is too slow here)
     search_n={"quick": 3000, "thorough": 20000},
     nontrivial=nontrivial,
     histogram=histogram,
